@@ -1,5 +1,5 @@
 ----------------------------- MODULE BodyTrace -----------------------------
-(* Trace validation for Body.tla: {"id", "kind", "body": [tokens], "exc", "out": [tokens], "call": {"exc", "rewritten": [labels], "params": [labels]}}  *)
+(* Trace validation for Body.tla: {"id", "kind", "body": [tokens], "exc", "out": [tokens], "call": {"exc", "rewritten": [labels], "params": [labels]}, "again": {"exc", "out", "out2"}}  *)
 (* out = the non-interface statements after parse + emit to the same kind and name, as tokens ("other" = a statement that matches no template).   *)
 (* call.rewritten = labels of the Name occurrences that became self.<name> in the generated __call__; call.params = labels that refer to parameters *)
 EXTENDS Body, Json, IOUtils
@@ -13,11 +13,15 @@ Clauses ==
    ELSE << <<"Verbatim", T.out = T.body>>,
            <<"NoneDropped", \A x \in SetOf(T.body) : Cnt(T.out, x) >= Cnt(T.body, x)>>,
            <<"NoneDuplicated", \A x \in SetOf(T.out) : Cnt(T.out, x) <= Cnt(T.body, x)>>,
-           <<"ReturnOnce", T.kind # "function" \/ Cnt(T.out, "ret") = Cnt(T.body, "ret")>> >>)
+           <<"ReturnOnce", T.kind # "function" \/ Cnt(T.out, "ret") = Cnt(T.body, "ret")>> >>
+        \* HeldIntact: the same conversion of the same description after a class (with / without __call__) was made from it
+        \o (IF T.again.exc = "skipped" THEN << >>
+            ELSE IF T.again.exc # "none" THEN << <<"AgainNeverRaises", FALSE>> >>
+            ELSE << <<"HeldIntact", T.again.out = T.out /\ T.again.out2 = T.out>> >>))
   \o (IF T.call.exc = "skipped" THEN << >>
       ELSE IF T.call.exc # "none" THEN << <<"CallNeverRaises", FALSE>> >>
       ELSE << <<"OnlyParamRefsRewritten", SetOf(T.call.rewritten) = SetOf(T.call.params)>> >>)
-TInit == tid \in 1..Len(Traces) /\ l = 1 /\ kind = "trace" /\ body = <<>> /\ out = <<"pending">>
+TInit == tid \in 1..Len(Traces) /\ l = 1 /\ kind = "trace" /\ body = <<>> /\ held = <<>> /\ rehomed = FALSE /\ out = <<"pending">>
 TStep == /\ l = 1
          /\ LET bad == SelectSeq(Clauses, LAMBDA x : ~x[2]) IN \A i \in 1..Len(bad) : PrintT(<<"F", T.id, 1, bad[i][1], "-">>)
          /\ PrintT(<<"D", T.id, 1>>)
